@@ -81,3 +81,61 @@ Lemma rollover_then_index_failure_breaks_walk :
   let s := {| packs := [[1; 2]%N]; rows := [2; 1]%N |} in
   walks (append false 2 s 3%N false) = false /\ walks (append true 2 s 3%N false) = true /\ append true 2 s 3%N false = s.
 Proof. repeat split; reflexivity. Qed.
+
+(* ---- encrypt ---- *)
+Lemma existsb_eqb_In r l : existsb (Nat.eqb r) l = true <-> In r l.
+Proof.
+  rewrite existsb_exists. split.
+  - intros (x & Hx & E). apply Nat.eqb_eq in E. subst. exact Hx.
+  - intros H. exists r. split; [exact H|apply Nat.eqb_refl].
+Qed.
+
+Lemma enc_receive_inv s r f : incl (e_index s) (e_metas s) ->
+  incl (e_index (fst (enc_receive true s r f))) (e_metas (fst (enc_receive true s r f))).
+Proof.
+  intros H. unfold enc_receive. destruct (existsb (Nat.eqb r) (e_index s)); [exact H|].
+  destruct f; cbn; try exact H.
+  - intros x [->|Hx]; [left; reflexivity|right; apply H; exact Hx].
+  - apply incl_tl. exact H.
+Qed.
+
+Lemma enc_receive_ack s r f : snd (enc_receive true s r f) = true -> In r (e_index (fst (enc_receive true s r f))).
+Proof.
+  unfold enc_receive. destruct (existsb (Nat.eqb r) (e_index s)) eqn:E.
+  - intros _. apply existsb_eqb_In. exact E.
+  - destruct f; cbn; try discriminate. intros _. left. reflexivity.
+Qed.
+
+Lemma enc_receive_mono s r f x : In x (e_index s) -> In x (e_index (fst (enc_receive true s r f))).
+Proof.
+  unfold enc_receive. destruct (existsb (Nat.eqb r) (e_index s)); [auto|]. destruct f; cbn; auto.
+Qed.
+
+(* whatever fails and whenever: every acknowledged upload is served, and is still served by the index rebuilt from the
+   meta blobs *)
+Theorem enc_acked_survive_rebuild : forall l s, incl (e_index s) (e_metas s) ->
+  let '(s', acks) := enc_run true s l in
+  incl (e_index s') (e_metas s') /\ (forall x, In x (e_index s) -> In x (e_index s')) /\
+  forall r, In r acks -> enc_serves s' r = true /\ enc_serves (enc_rebuild s') r = true.
+Proof.
+  induction l as [|[r f] rest IH]; intros s Hinv; cbn [enc_run].
+  - split; [exact Hinv|]. split; [auto|]. intros r [].
+  - destruct (enc_receive true s r f) as [s1 ack] eqn:E1.
+    assert (H1 : incl (e_index s1) (e_metas s1)). { pose proof (enc_receive_inv s r f Hinv) as X. rewrite E1 in X. exact X. }
+    specialize (IH s1 H1). destruct (enc_run true s1 rest) as [s2 acks].
+    destruct IH as (Hi & Hmono & Hacks). split; [exact Hi|]. split.
+    + intros x Hx. apply Hmono. pose proof (enc_receive_mono s r f x Hx) as X. rewrite E1 in X. exact X.
+    + intros q Hq. assert (Hin : In q (e_index s2)).
+      { destruct ack.
+        - destruct Hq as [<-|Hq].
+          + apply Hmono. pose proof (enc_receive_ack s r f) as X. rewrite E1 in X. apply X. reflexivity.
+          + destruct (Hacks q Hq) as [Hs _]. apply existsb_eqb_In. exact Hs.
+        - destruct (Hacks q Hq) as [Hs _]. apply existsb_eqb_In. exact Hs. }
+      split; apply existsb_eqb_In; [exact Hin|cbn; apply Hi; exact Hin].
+Qed.
+
+(* with the index row written first, a failed meta write followed by a retried upload loses the blob at the next rebuild *)
+Lemma enc_index_first_loses :
+  let '(s', acks) := enc_run false {| e_metas := []; e_index := [] |} [(7, EFailMeta); (7, ENoFail)] in
+  acks = [7] /\ enc_serves s' 7 = true /\ enc_serves (enc_rebuild s') 7 = false.
+Proof. vm_compute. repeat split. Qed.
